@@ -67,7 +67,7 @@ class C01(Check):
             "pairs, or n>=3 with a non-adjacent or reversed cx pair; for (a) every matrix with n>=2; distinct = SHA-1 of the case")
     assumptions = ["numpy reference (Kronecker products, little-endian qubit k = bit k) is correct",
                    "amplitudes are read through the BLOCH_VERIF accessor, which only exposes m_state"]
-    floors = {"__nontrivial__": (500, 5000), "enum_matrices": (400, 1500), "cx_nonadjacent_or_reversed": (50, 500)}
+    floors = {"__nontrivial__": (500, 5000), "enum_matrices": (400, 1000), "cx_nonadjacent_or_reversed": (50, 500)}
 
     # ---- (a)
     def enum_one(self, n, gates, sc, stats=None):
